@@ -298,12 +298,16 @@ class LoopMixin:
                 out.append((s2, NORMAL))
             else:
                 out.append((s2, oc))
-        # exit path
+        # exit path(s)
         ex = head.fork()
-        for f in exit_assume(ex, ghost):
-            ex.assume(f)
-        if self.feasible(ex):
-            out.append((ex, NORMAL))
+        r = exit_assume(ex, ghost)
+        if r and isinstance(r[0], tuple):
+            out.extend(r)                      # [(state, outcome)] computed by the loop kind
+        else:
+            for f in r:
+                ex.assume(f)
+            if self.feasible(ex):
+                out.append((ex, NORMAL))
         return out
 
     def cut_set_loop(self, st, s, spec, ordinal, sset, mk_elem, extra_assume=None):
@@ -399,10 +403,14 @@ class LoopMixin:
             return res
 
         def exit_assume(state, ghost):
-            rs = self.eval(state, s.test)
-            if len(rs) != 1 or isinstance(rs[0][1], Exc):
-                raise Unsupported("while condition with side paths")
-            return [z3.Not(ops.truth(state, rs[0][1]))]
+            res = []
+            for s1, c in self.eval(state, s.test):
+                if isinstance(c, Exc):
+                    continue                   # already reported by run_iteration
+                _, f = self.split(s1, ops.truth(s1, c))
+                if f:
+                    res.append((f, NORMAL))
+            return res or [z3.BoolVal(False)]
 
         return self._cut(st, s, spec, ordinal, run_iteration, make_extra, exit_assume)
 
